@@ -34,6 +34,19 @@ def concrete(resp, k):
     """spec response <<code, shape, errs, marker>> -> requests.Response carrying tag k."""
     code, shape, errs, marker = resp
     mark = ' Assert_failure src/lib_shell/prevalidator.ml:1918:8' if marker else ''
+    if marker and k % 2 == 0:
+        mark = ' while validating operation 0x' + 'a7' * 1600 + ':' + mark      # the assertion location may come after kilobytes of quoted data
+    return _timed(_concrete(code, shape, errs, marker, mark, k), k)
+
+
+def _timed(r, k):
+    """responses take time, and not always the same: the round trip is no part of the retry schedule"""
+    import datetime
+    r.elapsed = datetime.timedelta(milliseconds=(k * 670) % 2300)
+    return r
+
+
+def _concrete(code, shape, errs, marker, mark, k):
     if shape == 'list':
         body = []
         for j, (proto, temp) in enumerate(errs):
